@@ -1038,8 +1038,8 @@ def system_strategy(ep):
 
 
 # cases per entry point in the quick tier, and rough CPU cost of one case (ms) used to size and order the shards
-QUICK = {'omega_matrix': 7000, 'omega_hol': 600, 'simplex': 6000, 'strict': 4000, 'bb': 4000,
-         'simplex_hol': 1000, 'simplex_macro': 500, 'strict_macro': 120, 'int_macro': 300}
+QUICK = {'omega_matrix': 5000, 'omega_hol': 360, 'simplex': 5000, 'strict': 3000, 'bb': 3000,
+         'simplex_hol': 700, 'simplex_macro': 300, 'strict_macro': 64, 'int_macro': 200}
 COST_MS = {'omega_matrix': 13, 'omega_hol': 190, 'simplex': 7, 'strict': 9, 'bb': 11,
            'simplex_hol': 35, 'simplex_macro': 110, 'strict_macro': 950, 'int_macro': 215}
 
